@@ -221,4 +221,4 @@ def history_strategy(max_ops=25):
 
 
 def run(ctx):
-    ctx.run_given('history', history_strategy(), prop_history, ctx.n(1500, 6000))
+    ctx.run_given('history', history_strategy(), prop_history, ctx.n(1500, 20000))
